@@ -67,6 +67,15 @@ pub fn affine_case(cx: &mut Ctx, n: u64, case: &Value) {
     let tk = t0.compose_many(&[e1, kk]);
     chk("compose_many", "pre.compose_many([elem, K])".into(), near(&entries(&tk), &mat(&case["then_k"]), tol * 10.0), format!("{:?}", entries(&tk)));
     chk("is_identity", "is_identity".into(), t1.is_identity() == (near(&post, &[1.0, 0.0, 0.0, 0.0, 1.0, 0.0], 0.0)) || !exact, String::new());
+    // identity(): the neutral element of compose on both sides, equal to Default, is_identity, its own inverse
+    {
+        let id = AffineTransform::<f64>::identity();
+        let ok = entries(&id) == [1.0, 0.0, 0.0, 0.0, 1.0, 0.0] && id.is_identity() && id == AffineTransform::default()
+            && entries(&id.compose(&t1)) == entries(&t1) && entries(&t1.compose(&id)) == entries(&t1)
+            && id.inverse().map(|i| entries(&i)) == Some([1.0, 0.0, 0.0, 0.0, 1.0, 0.0])
+            && entries(&t1.compose_many(&[])) == entries(&t1) && entries(&id.compose_many(&[t1])) == entries(&t1);
+        chk("identity", "AffineTransform::identity()".into(), ok, format!("{:?}", entries(&id)));
+    }
     // inverse: None exactly for singular matrices, otherwise the exact rational inverse
     let det = case["det"].as_f64().unwrap();
     let inv = guard(|| AffineTransform::new(post[0], post[1], post[2], post[3], post[4], post[5]).inverse());
